@@ -164,7 +164,7 @@ prop("C14",
      thorough_rules=[W("C14", "nightly")])
 
 prop("C15",
-     [sig.rule_A1, sig.rule_A2, sig.rule_A3, sig.rule_A4, sig.rule_O1, sig.rule_O3, ts.rule_T1, W("C15")],
+     [sig.rule_A1, sig.rule_A2, sig.rule_A3, sig.rule_A4, sig.rule_A6, sig.rule_O1, sig.rule_O3, ts.rule_T1, W("C15")],
      "Auto-trait table of all manual Send/Sync impls against std's Mutex/RwLock bounds, higher-ranked closure data in every "
      "scoped signature, hold types borrow their lock, read holds have no mutable access, unsafe markers, no shared access into "
      "OwnedLockCollection, protected cells touched only under a hold (T1) - plus compile-fail witnesses with twins.",
